@@ -343,7 +343,7 @@ theorem composite_roundtrip_tagged (s : CompSpec) (subs : List (Tag × Field)) (
   -- facts from coherence
   rw [Field.coherent] at hcoh
   simp only [hm, he, Bool.and_eq_true] at hcoh
-  obtain ⟨⟨⟨hexp, hprefOK⟩, hkeysOK⟩, ⟨htags, _⟩⟩ := hcoh
+  obtain ⟨⟨⟨⟨hexp, hprefOK⟩, hkeysOK⟩, _hsorted⟩, ⟨htags, _⟩⟩ := hcoh
   have hnodup : (subs.map (·.1)).Nodup := by
     simp only [sortKeysOK, Bool.and_eq_true] at hkeysOK
     exact allDistinct_nodup _ hkeysOK.1.1
@@ -437,7 +437,7 @@ theorem composite_roundtrip_positional (s : CompSpec) (subs : List (Tag × Field
       -- coherence
       rw [Field.coherent] at hcoh
       simp only [hm, he, Bool.and_eq_true] at hcoh
-      obtain ⟨⟨⟨hexp, hprefOK⟩, hkeysOK⟩, _⟩ := hcoh
+      obtain ⟨⟨⟨⟨hexp, hprefOK⟩, hkeysOK⟩, _hsorted⟩, _⟩ := hcoh
       have hnodup : (subs.map (·.1)).Nodup := by
         simp only [sortKeysOK, Bool.and_eq_true] at hkeysOK
         exact allDistinct_nodup _ hkeysOK.1.1
@@ -568,7 +568,7 @@ theorem composite_roundtrip_bitmapped (s : CompSpec) (subs : List (Tag × Field)
   -- coherence
   rw [Field.coherent] at hcoh
   simp only [hm, Bool.and_eq_true] at hcoh
-  obtain ⟨⟨⟨hexp, hprefOK⟩, hkeysOK⟩, ⟨⟨⟨⟨⟨hauto, hblk⟩, hbpref⟩, hbenc⟩, hids⟩, _⟩⟩ := hcoh
+  obtain ⟨⟨⟨⟨hexp, hprefOK⟩, hkeysOK⟩, _hsorted⟩, ⟨⟨⟨⟨⟨hauto, hblk⟩, hbpref⟩, hbenc⟩, hids⟩, _⟩⟩ := hcoh
   have hauto' : b.auto = false := by simpa using hauto
   have hnodup : (subs.map (·.1)).Nodup := by
     simp only [sortKeysOK, Bool.and_eq_true] at hkeysOK
